@@ -3,6 +3,7 @@ package harness
 import (
 	"github.com/acquirecloud/golibs/chans"
 	gbytes "github.com/acquirecloud/golibs/container/bytes"
+	"github.com/acquirecloud/golibs/container/iterable"
 	glru "github.com/acquirecloud/golibs/container/lru"
 	distlock "github.com/acquirecloud/golibs/kvs/distlock"
 	"github.com/acquirecloud/golibs/kvs/inmem"
@@ -37,6 +38,7 @@ func init() {
 	sim.PreSetup = func() {
 		chans.ZverifReinitClockVars()
 		gbytes.ZverifReinitClockVars()
+		iterable.ZverifReinitClockVars()
 		glru.ZverifReinitClockVars()
 		distlock.ZverifReinitClockVars()
 		inmem.ZverifReinitClockVars()
